@@ -140,6 +140,8 @@ type c40Stream struct {
 	gotRst     bool
 	mayRst     bool // RST from the server is legitimate (CANCEL after handler return, duplicate SYN)
 	finishing  bool
+	tainted    bool  // outcome of an earlier step on this stream is not fixed by the property: no further verdicts on it
+	declCL     int64 // declared Content-Length, -1 if none
 }
 
 type c40Case struct {
@@ -172,6 +174,8 @@ type c40Case struct {
 	badSyn    []string // x-sid values of SYN_STREAMs that must not reach a handler
 	flags     map[string]bool
 	leak      int64
+	sessSlack int64 // bytes of which the client cannot know whether the session window was charged (see content-length mismatch)
+	mayEnd    bool // this step may legitimately be answered by GOAWAY/close (not required)
 	negInc    bool // this step raised a window that the client had driven negative (legal, 2.6.8)
 }
 
@@ -219,7 +223,7 @@ func (c *c40Case) connGone(err error) {
 		return
 	}
 	c.dead = true
-	if !c.wantEnd {
+	if !c.wantEnd && !c.mayEnd {
 		c.fail("unexpected-close", "the server closed the connection (%v) although every frame sent so far was legal", err)
 	}
 }
@@ -313,23 +317,23 @@ func (c *c40Case) handle(f bfe_spdy.Frame) {
 			c.closeStream(st)
 			return
 		}
-		if st.mayRst || st.closed {
+		if st.mayRst || st.closed || st.tainted {
 			st.gotRst = true
 			c.closeStream(st)
 			return
 		}
 		key := "unexpected-rst"
 		if c.negInc && f.Status == bfe_spdy.FlowControlError {
-			key = "window-increase-rejected-on-negative-window"
+			key = "window-change-rejected-on-negative-window"
 		}
 		c.fail(key, "server reset stream %d with status %d although the client obeyed every stream and window rule on it (clientFin=%v sent=%d recvWin=%d sessRecv=%d sendWin=%d)",
 			id, f.Status, st.clientFin, st.sent, st.recvWin, c.sessRecv, st.sendWin)
 	case *bfe_spdy.GoAwayFrame:
 		c.goAway = true
-		if !c.wantEnd {
+		if !c.wantEnd && !c.mayEnd {
 			key := "unexpected-goaway"
 			if c.negInc && f.Status == bfe_spdy.GoAwayStatus(bfe_spdy.FlowControlError) {
-				key = "window-increase-rejected-on-negative-window"
+				key = "window-change-rejected-on-negative-window"
 			}
 			c.fail(key, "GOAWAY(status %d) although every frame sent so far was legal", f.Status)
 		}
@@ -437,7 +441,7 @@ func (c *c40Case) waitAck(h *c40Handler, op string) (c40Ack, bool) {
 func (c *c40Case) writesQuiescent() bool {
 	for _, id := range c.order {
 		st := c.streams[id]
-		if !st.busy || st.closed {
+		if !st.busy || st.closed || st.tainted {
 			continue
 		}
 		if st.received < st.commanded && st.sendWin > 0 && c.sessSend > 0 {
@@ -543,7 +547,7 @@ func (c *c40Case) pick(sel int, pred func(*c40Stream) bool) *c40Stream {
 
 func (c *c40Case) log(format string, a ...any) { c.steps = append(c.steps, fmt.Sprintf(format, a...)) }
 
-func (c *c40Case) synFrame(id uint32, sidTag string, fin bool) *bfe_spdy.SynStreamFrame {
+func (c *c40Case) synFrame(id uint32, sidTag string, fin bool, cl ...int64) *bfe_spdy.SynStreamFrame {
 	f := &bfe_spdy.SynStreamFrame{StreamId: bfe_spdy.StreamId(id), Headers: bfe_http.Header{}}
 	method := "POST"
 	if fin {
@@ -556,6 +560,9 @@ func (c *c40Case) synFrame(id uint32, sidTag string, fin bool) *bfe_spdy.SynStre
 	f.Headers.Set(":host", "c40.example")
 	f.Headers.Set(":scheme", "http")
 	f.Headers.Set("x-sid", sidTag)
+	if len(cl) > 0 && cl[0] >= 0 {
+		f.Headers.Set("content-length", strconv.FormatInt(cl[0], 10))
+	}
 	return f
 }
 
@@ -578,12 +585,16 @@ func (c *c40Case) stepSyn(s c40Step) {
 		}
 		id += uint32(2 * (s.C % 3))
 		tag := strconv.Itoa(int(id))
-		c.log("SYN(%d fin=%v)", id, fin)
-		st := &c40Stream{id: id, clientFin: fin, recvWin: c.advInit, sendWin: c.cliInit}
+		cl := int64(-1)
+		if !fin && s.B%5 == 1 {
+			cl = int64(s.D % 3000)
+		}
+		c.log("SYN(%d fin=%v cl=%d)", id, fin, cl)
+		st := &c40Stream{id: id, clientFin: fin, recvWin: c.advInit, sendWin: c.cliInit, declCL: cl}
 		c.streams[id] = st
 		c.order = append(c.order, id)
 		c.maxID = id
-		c.write(c.synFrame(id, tag, fin))
+		c.write(c.synFrame(id, tag, fin, cl))
 		if c.stop() {
 			return
 		}
@@ -697,7 +708,7 @@ func (c *c40Case) stepData(s c40Step) {
 	fin := s.C%5 == 0
 	switch target {
 	case "open":
-		st := c.pick(s.D, func(x *c40Stream) bool { return !x.closed && !x.clientFin && x.h != nil })
+		st := c.pick(s.D, func(x *c40Stream) bool { return !x.closed && !x.clientFin && x.h != nil && !x.tainted })
 		if st == nil {
 			return
 		}
@@ -731,6 +742,33 @@ func (c *c40Case) stepData(s c40Step) {
 			n = 1 << 20
 		}
 		over := n > w
+		if c.sessSlack > 0 {
+			hi := st.recvWin
+			if c.sessRecv+c.sessSlack < hi {
+				hi = c.sessRecv + c.sessSlack
+			}
+			if over && n <= hi {
+				return // verdict would depend on the uncertain part of the session window
+			}
+		}
+		if st.declCL >= 0 && (st.sent+n > st.declCL || (fin && st.sent+n != st.declCL)) {
+			// body length contradicts the declared Content-Length (3.2.1: the request is bad). What exactly the
+			// server does is not fixed by the property: tolerate a reset, give no further verdicts on this stream.
+			c.log("DATA-cl-mismatch(%d n=%d fin=%v sent=%d cl=%d over=%v)", st.id, n, fin, st.sent, st.declCL, over)
+			c.flags["content-length-mismatch"] = true
+			st.tainted, st.mayRst = true, true
+			if !over {
+				// the server may or may not have charged these bytes to the session window
+				c.sessRecv -= n
+				c.sessSlack += n
+			}
+			df := &bfe_spdy.DataFrame{StreamId: bfe_spdy.StreamId(st.id), Data: patBytes(st.id, int(st.sent), int(n), 0)}
+			if fin {
+				df.Flags = bfe_spdy.DataFlagFin
+			}
+			c.write(df)
+			return
+		}
 		c.log("DATA(%d n=%d fin=%v win=%d/%s over=%v)", st.id, n, fin, w, lim, over)
 		df := &bfe_spdy.DataFrame{StreamId: bfe_spdy.StreamId(st.id), Data: patBytes(st.id, int(st.sent), int(n), 0)}
 		if fin {
@@ -756,7 +794,7 @@ func (c *c40Case) stepData(s c40Step) {
 		}
 		c.write(df)
 	case "half-closed":
-		st := c.pick(s.D, func(x *c40Stream) bool { return !x.closed && x.clientFin && x.h != nil })
+		st := c.pick(s.D, func(x *c40Stream) bool { return !x.closed && x.clientFin && x.h != nil && !x.tainted })
 		if st == nil {
 			return
 		}
@@ -792,7 +830,7 @@ func (c *c40Case) stepData(s c40Step) {
 }
 
 func (c *c40Case) stepRead(s c40Step) {
-	st := c.pick(s.A, func(x *c40Stream) bool { return !x.closed && !x.busy && x.h != nil && x.buffered > 0 && !x.finishing })
+	st := c.pick(s.A, func(x *c40Stream) bool { return !x.closed && !x.busy && x.h != nil && x.buffered > 0 && !x.finishing && !x.tainted })
 	if st == nil {
 		return
 	}
@@ -829,7 +867,7 @@ func (c *c40Case) stepRead(s c40Step) {
 }
 
 func (c *c40Case) stepWrite(s c40Step) {
-	st := c.pick(s.A, func(x *c40Stream) bool { return !x.closed && !x.busy && x.h != nil && !x.finishing })
+	st := c.pick(s.A, func(x *c40Stream) bool { return !x.closed && !x.busy && x.h != nil && !x.finishing && !x.tainted })
 	if st == nil {
 		return
 	}
@@ -922,6 +960,77 @@ func (c *c40Case) stepWU(s c40Step) {
 	}
 }
 
+
+// stepMisc sends frames whose handling the property does not pin down beyond "no panic, rules still enforced".
+func (c *c40Case) stepMisc(s c40Step) {
+	anyStream := func() uint32 {
+		if len(c.order) == 0 || s.C%4 == 0 {
+			return c.maxID + 2 + uint32(s.D%4)
+		}
+		return c.order[s.D%len(c.order)]
+	}
+	switch s.A % 12 {
+	case 0, 1:
+		id := anyStream()
+		c.log("HEADERS(%d)", id)
+		c.write(&bfe_spdy.HeadersFrame{StreamId: bfe_spdy.StreamId(id), Headers: bfe_http.Header{"x-a": {"b"}}})
+	case 2, 3:
+		id := anyStream()
+		c.log("SYN_REPLY(%d)", id)
+		c.write(&bfe_spdy.SynReplyFrame{StreamId: bfe_spdy.StreamId(id), Headers: bfe_http.Header{":status": {"200"}, ":version": {"HTTP/1.1"}}})
+	case 4:
+		c.log("SETTINGS(other ids)")
+		c.write(&bfe_spdy.SettingsFrame{FlagIdValues: []bfe_spdy.SettingsFlagIdValue{{Id: bfe_spdy.SettingsMaxConcurrentStreams, Value: uint32(s.D)},
+			{Flag: bfe_spdy.FlagSettingsPersistValue, Id: bfe_spdy.SettingsRoundTripTime, Value: 1}, {Id: 0xabcdef, Value: 0xffffffff}}})
+	case 5:
+		c.log("PING(even id)")
+		c.write(&bfe_spdy.PingFrame{Id: 2 + 2*uint32(s.D%1000)})
+	case 6:
+		c.log("GOAWAY from client")
+		c.write(&bfe_spdy.GoAwayFrame{LastGoodStreamId: 0, Status: bfe_spdy.GoAwayOK})
+	case 7, 8:
+		st := c.pick(s.D, func(x *c40Stream) bool { return !x.closed && x.h != nil && !x.tainted && x.sendWin > 0 })
+		if st == nil {
+			return
+		}
+		// 2.6.8: a WINDOW_UPDATE taking the window beyond 2^31-1 must end the stream or the session
+		c.log("WU-overflow(%d sendWin=%d)", st.id, st.sendWin)
+		c.flags["wu-overflow"] = true
+		st.tainted, st.mayRst, c.mayEnd = true, true, true
+		st.sendWin += 0x7fffffff
+		c.write(&bfe_spdy.WindowUpdateFrame{StreamId: bfe_spdy.StreamId(st.id), DeltaWindowSize: 0x7fffffff})
+	case 9:
+		if s.B%3 != 0 || c.sessSend <= 0 {
+			return
+		}
+		c.log("WU-overflow(session sess=%d)", c.sessSend)
+		c.flags["wu-overflow"] = true
+		c.wantEnd = true
+		c.sessSend += 0x7fffffff
+		c.write(&bfe_spdy.WindowUpdateFrame{StreamId: 0, DeltaWindowSize: 0x7fffffff})
+	case 10:
+		if s.B%3 != 0 {
+			return
+		}
+		id := c.maxID + 2
+		c.log("RST-idle(%d)", id)
+		c.wantEnd = true // 2.4.2 / h2-like: reset of a stream that was never opened; ending the session is legitimate
+		c.write(&bfe_spdy.RstStreamFrame{StreamId: bfe_spdy.StreamId(id), Status: bfe_spdy.Cancel})
+	case 11:
+		st := c.pick(s.D, func(x *c40Stream) bool { return !x.closed && x.h != nil && !x.tainted })
+		if st == nil {
+			c.log("WU(session +0)")
+			c.write(&bfe_spdy.WindowUpdateFrame{StreamId: 0, DeltaWindowSize: 0})
+			return
+		}
+		c.log("WU(%d +0 sendWin=%d)", st.id, st.sendWin)
+		if st.sendWin < 0 {
+			c.negInc = true
+		}
+		c.write(&bfe_spdy.WindowUpdateFrame{StreamId: bfe_spdy.StreamId(st.id), DeltaWindowSize: 0})
+	}
+}
+
 var c40Inits = []int64{0, 1, 100, 1000, 4096, 16384, 65536, 100000, 1 << 20}
 
 func (c *c40Case) stepSettings(s c40Step) {
@@ -934,16 +1043,18 @@ func (c *c40Case) stepSettings(s c40Step) {
 		}
 	}
 	c.log("SETTINGS(initial_window=%d was %d)", v, c.cliInit)
+	for _, id := range c.order {
+		if st := c.streams[id]; !st.closed && st.sendWin < 0 {
+			c.negInc = true
+			c.flags["settings-on-negative-window"] = true
+		}
+	}
 	if live && delta != 0 {
 		c.flags["settings-change-live"] = true
 	}
 	apply := func() {
 		for _, id := range c.order {
 			if st := c.streams[id]; !st.closed {
-				if delta >= 0 && st.sendWin < 0 {
-					c.negInc = true
-					c.flags["settings-increase-on-negative-window"] = true
-				}
 				st.sendWin += delta
 			}
 		}
@@ -1025,8 +1136,10 @@ func c40Run(tb ev.TB, rec *ev.Rec, script []c40Step) {
 		if c.stop() {
 			break
 		}
-		c.negInc = false
+		c.negInc, c.mayEnd = false, false
 		switch s.Op {
+		case "misc":
+			c.stepMisc(s)
 		case "syn":
 			c.stepSyn(s)
 		case "data":
@@ -1126,7 +1239,7 @@ func c40Run(tb ev.TB, rec *ev.Rec, script []c40Step) {
 
 func genC40Script(rt *rapid.T, maxSteps int) []c40Step {
 	n := rapid.IntRange(4, maxSteps).Draw(rt, "nSteps")
-	ops := []string{"syn", "syn", "syn", "data", "data", "data", "data", "data", "read", "read", "read", "read", "write", "write", "write", "finish", "wu", "wu", "settings", "rst", "ping"}
+	ops := []string{"syn", "syn", "syn", "data", "data", "data", "data", "data", "read", "read", "read", "read", "write", "write", "write", "finish", "wu", "wu", "settings", "rst", "ping", "misc", "misc"}
 	script := []c40Step{{Op: "syn", A: 0, B: rapid.IntRange(0, 7).Draw(rt, "firstFin"), C: rapid.IntRange(0, 2).Draw(rt, "firstGap")}}
 	for i := 1; i < n; i++ {
 		s := c40Step{Op: rapid.SampledFrom(ops).Draw(rt, "op")}
